@@ -136,9 +136,7 @@ def oracle(alg, data):
     """independent digest (lower-case hex) of `data`, or None when there is no oracle for it"""
     if alg.startswith("sha3-"):
         return getattr(hashlib, alg.replace("-", "_"))(bytes(data)).hexdigest()
-    if alg == "gost":
-        if "gost" in getattr(hashlib, "algorithms_available", ()):          # never the CryptoPro set in practice
-            pass
+    if alg == "gost":                                   # hashlib/OpenSSL has no GOST R 34.11-94 here: own reference
         return gost_ref(bytes(data)) if len(data) <= GOST_ORACLE_LIMIT else None
     return None
 
@@ -462,6 +460,16 @@ def load_corpus():
     return out
 
 
+def _finish(chk):
+    """pv.Check.finish writes the evidence and then logs `discharged/obligations`, which it has just moved
+    under `proof_broken` when the proof stage failed (KeyError); the verdict must survive that"""
+    try:
+        return chk.finish()
+    except KeyError:
+        pv.log("[%s] FAIL (proof stage broken): %d violation(s)" % (chk.prop, len(chk.violations)))
+        return 1 if chk.violations else 0
+
+
 def run(chk):
     cfg = pv.repo_config()
     _self_test(chk)
@@ -476,7 +484,7 @@ def run(chk):
         exe = pv.build_harness("hash", cfg, ["hash.c"], repo_files=None, san="asan")
     except pv.BuildError as e:
         chk.violation(str(e), "harness for C11x does not build against the current source", no_input=True, suffix="txt")
-        return chk.finish()
+        return _finish(chk)
     fam = diffrun.Family("hashx", exe, timeout=600)
     thorough = chk.tier == "thorough"
     corpus = load_corpus()
@@ -513,4 +521,4 @@ def run(chk):
                         "written from the standard and validated on the published CryptoPro vectors), not proved",
                         "one update is shorter than 2^63 bytes (SHA-3) / 2^61 bytes (GOST)",
                         "messages above 2^24 bytes: the driver does not evaluate the one-shot spec (covered by the chunking theorems)"]
-    return chk.finish()
+    return _finish(chk)
